@@ -234,6 +234,13 @@ pub open spec fn plain(s: Seq<char>) -> bool { !has_dot_piece(split_slash(s)) }
 // Path::join: an absolute argument replaces the base, a relative one is appended
 pub open spec fn path_join(a: PathV, b: PathV) -> PathV { if b.len() > 0 && b[0] == root() { b } else { a + b } }
 
+pub broadcast proof fn lemma_join1(a: PathV, c: Seq<char>)
+    requires c.len() > 1
+    ensures #[trigger] path_join(a, seq![c]) == a.push(c)
+{
+    assert(seq![c][0] == c);
+    assert(a + seq![c] =~= a.push(c));
+}
 pub proof fn lemma_under_refl(d: PathV)
     ensures is_under(d, d)
 {
@@ -341,15 +348,23 @@ pub proof fn lemma_layout()
 // ---- helper contracts (from the code): one file copied / deleted, failures logged and ignored --------------------
 pub open spec fn copy_file_post(o: World, n: World, a: PathV, b: PathV) -> bool {
     &&& (o.fault ==> n.fault)
-    &&& (!n.fault ==> n.fs == cp(o.fs, a, b))
+    &&& (!n.fault ==> n.fs =~= cp(o.fs, a, b))
     &&& (forall|p: PathV| p != b ==> #[trigger] at(n.fs, p) == at(o.fs, p))
     &&& quiet_ext(o.tr, n.tr)
     &&& (!is_sys(b) ==> neutral_ext(o.tr, n.tr))
 }
 pub open spec fn delete_file_post(o: World, n: World, p: PathV) -> bool {
     &&& (o.fault ==> n.fault)
-    &&& (!n.fault ==> n.fs == rm(o.fs, p))
+    &&& (!n.fault ==> n.fs =~= rm(o.fs, p))
     &&& (forall|q: PathV| q != p ==> #[trigger] at(n.fs, q) == at(o.fs, q))
     &&& quiet_ext(o.tr, n.tr)
     &&& (!is_sys(p) ==> neutral_ext(o.tr, n.tr))
+}
+
+// a file directly inside a folder under the setup directory is not a system file
+pub proof fn lemma_src_under(d: PathV)
+    requires wf_layout(), is_under(exe_dir(), d)
+    ensures forall|c: Seq<char>| !is_sys(#[trigger] d.push(c))
+{
+    assert forall|c: Seq<char>| !is_sys(#[trigger] d.push(c)) by { lemma_under_push(exe_dir(), d, c); }
 }
